@@ -16,8 +16,11 @@ import copy as _copy
 
 import numpy as np
 
-from sim import core, e1, e1run
+from sim import core, e1, e1run, e2, e2w, e3
 from sim.core import yastn
+
+import yastn.tn.mps as mps
+import yastn.tn.fpeps as fpeps
 
 PROP = "C15"
 ENGINE = "E1"
@@ -89,6 +92,54 @@ class OpDictArg(e1.Op):
         return [e1.Shadow(a.arr, a.axes, a.tree, a.n, a.sym, a.isdiag)]
 
 
+@e1.register
+class OpContainerDict(e1.Op):
+    """to_dict -> from_dict of a container (MPS/MPO, Peps, environment) with the dictionary as the observed argument."""
+    name = "c_dict"
+    shares = True
+
+    def gen(self, g):
+        c = [s for s, v in g.task.slots.items() if meta_of(v) is not None and not isinstance(v, fpeps.DoublePepsTensor)]
+        if not c:
+            return None
+        return {"op": "c_dict", "in": [g.rng.choice(c)], "args": {"level": g.rng.choice([0, 1, 2]), "route": g.rng.choice(["method", "function"])}}
+
+    def run(self, task, rec, ins):
+        a, ar = ins[0], rec["args"]
+        d = a.to_dict(level=ar["level"])
+        before = core.canon(d)
+        x = type(a).from_dict(d) if ar["route"] == "method" else yastn.from_dict(d)
+        if core.canon(d) != before and not getattr(core.current_world(), "generating", False):
+            raise core.Violation(PROP, "O1-dict-argument-modified", "%s.from_dict changed the dictionary it was given (level %d, route %s)"
+                                 % (type(a).__name__, ar["level"], ar["route"]), op="c_dict")
+        return [x]
+
+    def shadow(self, task, rec, sins, outs, ins=None):
+        return [sins[0].copy() if hasattr(sins[0], "copy") else sins[0]]
+
+
+@e1.register
+class OpContainerCopy(e1.Op):
+    """copy / clone / shallow_copy of any container, biased to objects in unusual states (MPS with a central block)."""
+    name = "c_copy"
+    shares = True
+
+    def gen(self, g):
+        c = [s for s, v in g.task.slots.items() if meta_of(v) is not None and hasattr(v, "copy") and not isinstance(v, fpeps.DoublePepsTensor)]
+        if not c:
+            return None
+        special = [s for s in c if getattr(g.task.slots[s], "pC", None) is not None]
+        a = g.rng.choice(special) if special and g.rng.random() < 0.6 else g.rng.choice(c)
+        kinds = [k for k in ("copy", "clone", "shallow_copy") if hasattr(g.task.slots[a], k)]
+        return {"op": "c_copy", "in": [a], "args": {"kind": g.rng.choice(kinds)}}
+
+    def run(self, task, rec, ins):
+        return [getattr(ins[0], rec["args"]["kind"])()]
+
+    def shadow(self, task, rec, sins, outs, ins=None):
+        return [sins[0].copy() if hasattr(sins[0], "copy") else sins[0]]
+
+
 def list_blocks(x):
     """(logical key, shape) of the blocks of x, by trial block access only."""
     import itertools
@@ -118,11 +169,73 @@ def list_blocks(x):
     return out
 
 
+# ---- containers --------------------------------------------------------------------------------------------------
+
+def parts(v, depth=0):
+    """{name: Tensor} of the tensors reachable from a live object (a Tensor is its own single part)."""
+    if isinstance(v, yastn.Tensor):
+        return {"": v}
+    out = {}
+    if depth > 3:
+        return out
+    if isinstance(v, mps.MpsMpoOBC):
+        for k, t in v.A.items():
+            for kk, tt in parts(t, depth + 1).items():
+                out["A%r%s" % (k, kk)] = tt
+    elif isinstance(v, fpeps.DoublePepsTensor):
+        out["bra"], out["ket"] = v.bra, v.ket
+        if v.op is not None:
+            out["op"] = v.op
+    elif isinstance(v, fpeps.Lattice):          # Peps and lattice containers
+        for site in v.sites():
+            x = v[site]
+            if x is not None:
+                for kk, tt in parts(x, depth + 1).items():
+                    out["%r%s" % (tuple(site), kk)] = tt
+    elif isinstance(v, fpeps.EnvBoundaryMPS):
+        for k, m in v._env.items():
+            for kk, tt in parts(m, depth + 1).items():
+                out["env%r%s" % (k, kk)] = tt
+        for kk, tt in parts(v.psi, depth + 1).items():
+            out["psi" + kk] = tt
+    elif isinstance(v, (fpeps.EnvCTM, fpeps.EnvBP)):
+        for site in v.sites():
+            loc = v[site]
+            for f in loc.fields():
+                t = getattr(loc, f)
+                if isinstance(t, yastn.Tensor):
+                    out["env%r.%s" % (tuple(site), f)] = t
+        psi = v.psi.ket if hasattr(v.psi, "ket") else v.psi
+        for kk, tt in parts(psi, depth + 1).items():
+            out["psi" + kk] = tt
+    elif hasattr(v, "fields") and callable(v.fields):       # environment dataclasses
+        for f in v.fields():
+            t = getattr(v, f)
+            if isinstance(t, yastn.Tensor):
+                out["." + f] = t
+    return out
+
+
+def meta_of(v):
+    if isinstance(v, mps.MpsMpoOBC):
+        return ["MpsMpoOBC", v.N, v.nr_phys, v.pC, complex(v.factor), sorted(repr(k) for k in v.A)]
+    if isinstance(v, fpeps.DoublePepsTensor):
+        return ["DoublePepsTensor", list(v.trans), sorted((k, list(c)) for k, c in v.swaps.items()), v.op is not None]
+    if isinstance(v, fpeps.Lattice):
+        return [type(v).__name__, list(v.dims), str(v.boundary)]
+    if isinstance(v, (fpeps.EnvBoundaryMPS, fpeps.EnvCTM, fpeps.EnvBP)):
+        return [type(v).__name__, list(v.dims)]
+    return None
+
+
 # ---- snapshots -------------------------------------------------------------------------------------------------
 
 def snap(v):
     if isinstance(v, yastn.Tensor):
         return core.tensor_canon(v)
+    m = meta_of(v)
+    if m is not None:
+        return core.canon({"meta": m, "parts": {k: core.tensor_canon(t) for k, t in parts(v).items()}})
     return core.canon(v)
 
 
@@ -130,13 +243,18 @@ def snapshot_all(task):
     return {s: snap(v) for s, v in task.slots.items()}
 
 
+def _share(t1, t2):
+    return t1._data is t2._data or bool(t1._data.size and t2._data.size and np.shares_memory(t1._data, t2._data))
+
+
 def sharing(task):
-    """Undirected sharing graph over live tensor slots."""
-    items = [(s, v) for s, v in task.slots.items() if isinstance(v, yastn.Tensor)]
+    """Undirected sharing graph over live slots (tensors and containers of tensors)."""
+    items = [(s, list(parts(v).values())) for s, v in task.slots.items()]
+    items = [(s, ts) for s, ts in items if ts]
     out = {}
-    for i, (s, v) in enumerate(items):
-        for s2, v2 in items[i + 1:]:
-            if v._data is v2._data or (v._data.size and v2._data.size and np.shares_memory(v._data, v2._data)):
+    for i, (s, ts) in enumerate(items):
+        for s2, ts2 in items[i + 1:]:
+            if any(_share(a, b) for a in ts for b in ts2):
                 out.setdefault(s, set()).add(s2)
                 out.setdefault(s2, set()).add(s)
     return out
@@ -145,22 +263,28 @@ def sharing(task):
 # ---- mutations (documented in-place API) ----------------------------------------------------------------------------
 
 def draw_mutation(task, rng):
-    cands = [s for s, v in task.slots.items() if isinstance(v, yastn.Tensor) and v.size > 0 and v.yastn_dtype != "bool"]
+    cands = []
+    for s, v in task.slots.items():
+        for name, t in sorted(parts(v).items()):
+            if t.size > 0 and t.yastn_dtype != "bool":
+                cands.append((s, name))
     if not cands:
         return None
-    s = rng.choice(cands)
-    x = task.slots[s]
+    s, name = rng.choice(cands)
+    x = parts(task.slots[s])[name]
     blocks = list_blocks(x)
     if not blocks:
         return None
     key, shape = rng.choice(blocks)
     kind = rng.choice(["setitem", "setitem", "set_block", "setitem_scaled"])
-    return ["mut", task.id, s, kind, [int(k) for k in key], rng.randrange(1 << 30)]
+    return ["mut", task.id, s, kind, [int(k) for k in key], rng.randrange(1 << 30), name]
 
 
 def apply_mutation(task, ev):
-    _, _, s, kind, key, vseed = ev
-    x = task.slots[s]
+    _, _, s, kind, key, vseed = ev[:6]
+    x = parts(task.slots[s]).get(ev[6] if len(ev) > 6 else "")
+    if x is None:
+        raise yastn.YastnError("part gone")
     key = tuple(key)
     blk = x[key]
     r = np.random.default_rng(vseed)
@@ -177,20 +301,40 @@ def apply_mutation(task, ev):
 
 # ---- one simulated history ----------------------------------------------------------------------------------------------
 
+WEIGHTS_E2 = {"m_random_mps": 3, "m_random_mpo": 1.5, "m_product_mps": 0.7, "m_add": 1.5, "m_scal": 1, "m_matmul": 1, "m_unary": 6, "m_inplace": 6,
+              "m_measure": 1.5, "m_zipper": 0.7, "m_spectrum": 1, "c_dict": 2, "c_copy": 5}
+WEIGHTS_E3 = {"p_init": 1.2, "p_prepare": 0.6, "p_gate": 5, "p_copy": 4, "p_add": 1, "p_env": 1.5, "p_measure": 3, "p_evolve": 1.2, "p_dpt": 1, "c_dict": 2, "c_copy": 3}
+
+
 def build(seed, tier):
     rng = core.stream(seed, "programs")
     swarm = core.stream(seed, "swarm")
-    from sim.models.group import SYM_NAMES
-    sym = rng.choice(SYM_NAMES)
-    cfg = {"sym": sym, "fermionic": rng.choice(e1run.fermionic_choices(sym)), "tensordot_policy": rng.choice(e1run.POLICIES),
-           "default_fusion": rng.choice(["hard", "meta"]), "force_fusion": None}
-    spec = {"id": 0, "config": cfg, "universe": [u.to_json() for u in e1.gen_universe(sym, rng)], "tags": {}}
-    nops = swarm.randint(10, 22)
-    wts = dict(WEIGHTS)
-    for k in list(wts):
-        if swarm.random() < 0.2:
-            wts[k] = 0
-    prog, digs, t = e1run.generate_cold(seed, spec, rng, nops, wts, seed_ops=("rand",))
+    world_kind = swarm.choice(["E1", "E1", "E1", "E2", "E2", "E3"])
+    if world_kind == "E1":
+        from sim.models.group import SYM_NAMES
+        sym = rng.choice(SYM_NAMES)
+        cfg = {"sym": sym, "fermionic": rng.choice(e1run.fermionic_choices(sym)), "tensordot_policy": rng.choice(e1run.POLICIES),
+               "default_fusion": rng.choice(["hard", "meta"]), "force_fusion": None}
+        spec = {"id": 0, "config": cfg, "universe": [u.to_json() for u in e1.gen_universe(sym, rng)], "tags": {}}
+        nops = swarm.randint(10, 22)
+        wts = dict(WEIGHTS)
+        for k in list(wts):
+            if swarm.random() < 0.2:
+                wts[k] = 0
+        prog, digs, t = e1run.generate_cold(seed, spec, rng, nops, wts, seed_ops=("rand",))
+    elif world_kind == "E2":
+        fam = rng.choice(["SpinlessFermions", "Spin12", "Spin1", "SpinfulFermions"])
+        cfg = {"family": fam, "sym": rng.choice(e2.FAMILIES[fam]), "N": rng.randint(2, 4 if fam == "SpinfulFermions" else 5), "qd": 2,
+               "tensordot_policy": rng.choice(e1run.POLICIES), "default_fusion": "hard"}
+        spec = {"id": 0, "engine": "E2", "config": cfg, "universe": [], "tags": {}}
+        prog, digs, t = e1run.generate_cold(seed, spec, rng, swarm.randint(10, 18), dict(WEIGHTS_E2), seed_ops=("m_random_mps", "m_random_mpo"), cache_impl="real")
+    else:
+        fam = rng.choice(["SpinlessFermions", "SpinlessFermions", "Spin12", "SpinfulFermions"])
+        dims = list(rng.choice([(1, 2), (2, 1), (2, 2), (2, 2), (1, 3), (3, 1)] + ([(2, 3), (3, 2)] if fam != "SpinfulFermions" else [])))
+        cfg = {"family": fam, "sym": rng.choice(e3.FAMILIES3[fam]), "dims": dims, "tree": min(dims) == 1,
+               "tensordot_policy": rng.choice(e1run.POLICIES), "default_fusion": "hard"}
+        spec = {"id": 0, "engine": "E3", "config": cfg, "universe": [], "tags": {}}
+        prog, digs, t = e1run.generate_cold(seed, spec, rng, swarm.randint(8, 14), dict(WEIGHTS_E3), seed_ops=("p_init",), cache_impl="real")
     ts = dict(spec)
     ts["program"] = prog
     arm = swarm.choice(["baseline", "disturbed", "disturbed"])
@@ -200,7 +344,9 @@ def build(seed, tier):
         world["maxsize"] = swarm.choice(["default", 0, 1, 2, 8])
         world["fc"] = {"p_lookup": swarm.choice([0.0, 0.03, 0.1]), "lookup_kinds": ["evict", "clear_table", "clear_all", "resize"],
                        "p_lapack": swarm.choice([0.0, 0.2, 0.5, 1.0])}
-    case = {"format": 1, "property": PROP, "engine": ENGINE, "arm": arm, "seed": seed, "world": world, "tasks": [ts],
+    if world_kind != "E1":
+        world["fc"] = dict(world["fc"], p_lookup=min(world["fc"].get("p_lookup", 0.0), 0.03)) if world["fc"] else world["fc"]
+    case = {"format": 1, "property": PROP, "engine": world_kind, "arm": arm, "seed": seed, "world": world, "tasks": [ts],
             "schedule": [["op", 0, r["id"]] for r in prog], "inner": {}, "mode": "draw",
             "p_mut": swarm.choice([0.0, 0.1, 0.25, 0.4]) if arm != "baseline" else swarm.choice([0.0, 0.15])}
     return case
@@ -238,7 +384,7 @@ def simulate(case, draw):
             sched_out.append(ev)
             before = snapshot_all(task)
             if ev[0] == "mut":
-                _, _, s, kind, key, vseed = ev
+                _, _, s, kind, key, vseed = ev[:6]
                 if s not in task.slots:
                     continue
                 sh = sharing(task)
@@ -246,7 +392,7 @@ def simulate(case, draw):
                 w.begin_op(0, "m%d" % len(sched_out))
                 try:
                     apply_mutation(task, ev)
-                except (yastn.YastnError, ValueError):   # e.g. read-only storage of imag() of a real tensor
+                except (yastn.YastnError, ValueError, KeyError):   # e.g. read-only storage of imag() of a real tensor
                     info["unexpected_exceptions"] += 1
                 info["mut"] += 1
                 if len(allowed) > 1 or any(s in pr for pr in copies):
@@ -275,19 +421,45 @@ def simulate(case, draw):
                 # no object was returned: not a C15 matter (DESIGN section 6); counted
                 info["unexpected_exceptions"] += 1
                 outs = None
+            except Exception as e:  # noqa: BLE001
+                if case["engine"] == "E1":
+                    raise
+                # container worlds run solvers on states carrying injected random blocks: any exception means "no object returned" (counted by type)
+                info["unexpected_exceptions"] += 1
+                w.probes["container_op_raised_%s" % type(e).__name__] += 1
+                outs = None
             after = snapshot_all(task)
+            allowed = set()
+            if op.inplace and rec["in"]:
+                # documented in-place API (methods ending in '_'): the receiver and whatever physically shares memory with it may change
+                allowed = {rec["in"][0]} | sh.get(rec["in"][0], set())
+                info["inplace_container_ops"] = info.get("inplace_container_ops", 0) + 1
+                if len(allowed) > 1 or any(rec["in"][0] in pr for pr in copies):
+                    info["mut_on_aliased"] += 1
             for k in before:
-                if before[k] != after[k]:
+                if k not in allowed and before[k] != after[k]:
                     role = "argument" if k in rec["in"] else "live object that is not even an argument"
-                    raise core.Violation(PROP, "O1-operand-modified", "op %s %s changed slot %d (%s)" % (rec["op"], rec["args"], k, role),
+                    if op.inplace:
+                        role = "copy()/clone() result or source" if any(k in pr and rec["in"][0] in pr for pr in copies) else "object that shares no memory with the receiver"
+                    raise core.Violation(PROP, "O2-inplace-leaks" if op.inplace else "O1-operand-modified", "op %s %s changed slot %d (%s)" % (rec["op"], rec["args"], k, role),
                                          op=rec["op"], slot=k, kind=str(rec["args"].get("kind")))
-            if outs is not None and rec["op"] == "copy" and rec["args"]["kind"] in ("copy", "clone"):
+            if outs is not None and rec["op"] in ("copy", "m_unary", "p_copy", "c_copy") and rec["args"]["kind"] in ("copy", "clone"):
                 src, dst = task.slots[rec["in"][0]], outs[0]
                 info["copy_pairs"] += 1
                 copies.append((rec["in"][0], rec["out"][0]))
-                if src._data is dst._data or (src._data.size and np.shares_memory(src._data, dst._data)):
-                    raise core.Violation(PROP, "O3-copy-shares-memory", "%s() result shares memory with its source" % rec["args"]["kind"],
-                                         op=rec["op"], kind=rec["args"]["kind"])
+                ps, pd = parts(src), parts(dst)
+                if isinstance(src, (fpeps.EnvBoundaryMPS, fpeps.EnvCTM, fpeps.EnvBP)):
+                    # an environment's copy()/clone() is documented to make the ENVIRONMENT tensors independent; the state psi it refers to is
+                    # a reference to the caller's object (shared by copy(); cloned by EnvCTM.clone() only) and is not held to independence here
+                    ps = {k: t for k, t in ps.items() if k.startswith("env")}
+                    pd = {k: t for k, t in pd.items() if k.startswith("env")}
+                bad = [(a, b) for a, ta in ps.items() for b, tb in pd.items() if _share(ta, tb)]
+                if bad:
+                    raise core.Violation(PROP, "O3-copy-shares-memory", "%s() result of a %s shares memory with its source (parts %s)"
+                                         % (rec["args"]["kind"], type(src).__name__, bad[:2]), op=rec["op"], kind=rec["args"]["kind"])
+                if set(ps) != set(pd):
+                    raise core.Violation(PROP, "O3-copy-incomplete", "%s() result of a %s holds parts %s, the source %s"
+                                         % (rec["args"]["kind"], type(src).__name__, sorted(pd)[:6], sorted(ps)[:6]), op=rec["op"], kind=rec["args"]["kind"])
             v = w.take_violation()
             if v is not None and v.prop == PROP:
                 raise v
@@ -317,7 +489,8 @@ def run_seed(seed, tier):
     return {"violation": v, "case": case if v else None, "stats": st, "probes": dict(w.probes),
             "digest": e1run.schedule_digest(case), "nontrivial": bool(nontrivial), "arm": case["arm"],
             "sample": e1run.brief_case(case) if seed % 400 == 0 else None,
-            "ops_seen": sorted({r["op"] + ":" + str(r["args"].get("kind", "")) for r in case["tasks"][0]["program"]})}
+            "ops_seen": sorted({r["op"] + ":" + str(r["args"].get("kind", "")) for r in case["tasks"][0]["program"]}),
+            "world_kind": case["engine"]}
 
 
 def replay(case):
@@ -328,6 +501,9 @@ def replay(case):
 
 def extra_evidence(results):
     ops = set()
+    kinds = {}
     for r in results:
         ops.update(r.get("ops_seen", []))
-    return {"op_kinds_exercised": sorted(ops), "n_op_kinds_exercised": len(ops)}
+        kinds[r.get("world_kind", "E1")] = kinds.get(r.get("world_kind", "E1"), 0) + 1
+    return {"op_kinds_exercised": sorted(ops), "n_op_kinds_exercised": len(ops),
+            "runs_by_object_world": {"tensors (E1)": kinds.get("E1", 0), "MPS/MPO (E2)": kinds.get("E2", 0), "PEPS and environments (E3)": kinds.get("E3", 0)}}
